@@ -1,4 +1,427 @@
-/-! native driver `C16` (stub; replaced by the area's real driver) -/
+import PPLV.COTree.Model
+
+/-! native driver `pplv_c16`: replays the journal of `harness/c16_rows.cc` on the models of
+`PPLV/COTree/Model.lean` (`SMap`, dense lists, `HoleArray`, density arithmetic) and compares every
+real observation with what the model dictates: `ok <id>` / `MISMATCH <id> <obligation> <detail>`. -/
+open PPLV.COTree
+
+namespace C16Driver
+
+def toks (s : String) : List String := (s.splitOn " ").filter (· ≠ "")
+def sections (s : String) : List (List String) := (s.splitOn "|").map toks
+
+def nat! (s : String) : Nat := s.toNat?.getD 0
+def int! (s : String) : Int := s.toInt?.getD 0
+
+def parseKV (t : String) : Nat × Int :=
+  match t.splitOn ":" with
+  | [k, v] => (nat! k, int! v)
+  | _ => (0, 0)
+
+def showMap (m : SMap) : String := " ".intercalate (m.map (fun p => s!"{p.1}:{p.2}"))
+def showList (l : List Int) : String := " ".intercalate (l.map toString)
+def keyStr : Option Nat → String
+  | none => "end"
+  | some k => toString k
+
+/-- nearest stored key below / above -/
+def predKey (m : SMap) (k : Nat) : Option Nat := (m.filter (fun p => p.1 < k)).getLast?.map (·.1)
+def succKey (m : SMap) (k : Nat) : Option Nat := (m.filter (fun p => k < p.1)).head?.map (·.1)
+
+/-- `bisect*` post-condition on keys: `ret` is `k` when stored, else the nearest smaller or larger key -/
+def judgeKey (m : SMap) (ret : String) (k : Nat) : Bool :=
+  match ret.toNat? with
+  | none => false
+  | some r => if m.stored k then r == k else (m.stored r && (some r == predKey m k || some r == succKey m k))
+
+structure St where
+  kind : String := ""
+  tree : SMap := []
+  tsize : Nat := 0
+  trs : Nat := 0
+  arr : HoleArray := ⟨#[]⟩
+  rows : Array SRow := #[⟨0, []⟩, ⟨0, []⟩, ⟨0, []⟩]
+  exprs : Array (List Int) := #[[0], [0], [0]]
+  lastId : String := "-"
+  pending : String := "-"
+  nOk : Nat := 0
+  nBad : Nat := 0
+
+abbrev M := StateT St IO
+
+def bad (id ob detail : String) : M Unit := do
+  IO.println s!"MISMATCH {id} {ob} {detail}"
+  modify fun s => { s with nBad := s.nBad + 1 }
+
+/-- run the checks of one event; print `ok` when none failed -/
+def verdict (id : String) (checks : List (String × Bool × String)) : M Unit := do
+  let failed := checks.filter (fun c => !c.2.1)
+  if failed.isEmpty then
+    IO.println s!"ok {id}"
+    modify fun s => { s with nOk := s.nOk + 1 }
+  else
+    for c in failed do bad id c.1 c.2.2
+
+/-! ### CO_Tree events -/
+
+def treeEvent (id : String) (op : List String) (obs : List String) (cont : List String) : M Unit := do
+  let st ← get
+  let real : SMap := cont.map parseKV
+  let (ret, size, rs, ok, sok) := match obs with
+    | [r, a, b, c, d] => (r, nat! a, nat! b, c == "1", d == "1")
+    | _ => ("?", 0, 0, false, false)
+  let m := st.tree
+  let a (i : Nat) : String := op.getD i ""
+  -- model step: new map, expected return (none = not checked), new (size, rs)
+  let keep := (m, (none : Option String), (st.tsize, st.trs))
+  let insStep (m' : SMap) (k : Nat) := (m', some (toString k),
+    if m.stored k then (st.tsize, st.trs) else afterInsert st.tsize st.trs)
+  let eraStep (k : Nat) (m' : SMap) (r : Option String) := (m', r,
+    if m.stored k then afterErase st.tsize st.trs else (st.tsize, st.trs))
+  let (m', expRet, (size', rs')) : SMap × Option String × (Nat × Nat) := match a 0 with
+    | "ins" => insStep (m.set (nat! (a 1)) (int! (a 2))) (nat! (a 1))
+    | "ins0" => insStep (m.touch (nat! (a 1))) (nat! (a 1))
+    | "insh" => insStep (m.set (nat! (a 2)) (int! (a 3))) (nat! (a 2))
+    | "insh0" => insStep (m.touch (nat! (a 2))) (nat! (a 2))
+    | "era" => let k := nat! (a 1); eraStep k (m.erase k) (some (keyStr ((m.erase k).lowerBound (k + 1))))
+    | "erai" => let k := nat! (a 1); eraStep k (m.erase k) (some (keyStr ((m.erase k).lowerBound (k + 1))))
+    | "esl" => let k := nat! (a 1); eraStep k (m.deleteShift k) none
+    | "incr" => (m.shiftUp (nat! (a 1)) (nat! (a 2)), none, (st.tsize, st.trs))
+    | "next" => (m, some (keyStr (m.next (nat! (a 1)))), (st.tsize, st.trs))
+    | "prev" => (m, some (keyStr (if a 1 == "end" then (m.getLast?.map (fun (p : Nat × Int) => p.1)) else predKey m (nat! (a 1)))), (st.tsize, st.trs))
+    | "clear" => ([], none, (0, 0))
+    | "bulk" =>
+      let rec pairs : List String → SMap
+        | k :: v :: t => (nat! k, int! v) :: pairs t
+        | _ => []
+      let l := pairs (op.drop 1)
+      (l, none, (l.length, bulkRs l.length))
+    | _ => keep
+  let neigh : List (String × Bool × String) := match a 0 with
+    | "bis" => [("bisect", judgeKey m ret (nat! (a 1)), s!"key {a 1} returned {ret}")]
+    | "bnear" => [("bisect_near", judgeKey m ret (nat! (a 2)), s!"key {a 2} hint {a 1} returned {ret}")]
+    | "bin" =>
+      let f := nat! (a 1); let l := nat! (a 2)
+      [("bisect_in", judgeKey (m.restrict f (l + 1)) ret (nat! (a 3)), s!"range {f}..{l} key {a 3} returned {ret}")]
+    | _ => []
+  let checks : List (String × Bool × String) :=
+    [ ("OK", ok && sok, s!"OK()={ok} structure_OK()={sok}"),
+      ("sorted", real.sortedB, showMap real),
+      ("contents", real == m', s!"expected [{showMap m'}] got [{showMap real}]"),
+      ("size", size == real.length && size == size', s!"size_={size} elements={real.length} expected={size'}"),
+      ("reserved", rs == rs', s!"reserved_size={rs} expected={rs'} (size {size})"),
+      ("density", densityOK size rs, s!"size={size} reserved_size={rs}"),
+      ("return", match expRet with | none => true | some r => r == ret, s!"expected {expRet.getD "-"} got {ret}") ]
+    ++ neigh
+  verdict id checks
+  -- `copy`/`assign`/`erasewhile` show a state that equals the current one; follow the real tree otherwise
+  modify fun s => { s with tree := m', tsize := size', trs := rs' }
+
+/-! ### raw arrays and position-level bisection -/
+
+def arrayEvent (id : String) (t : List String) : M Unit := do
+  match t with
+  | rsS :: s0 :: s1 :: cells =>
+    let arr : HoleArray := ⟨(cells.map (fun c => if c == "_" then none else some (nat! c))).toArray⟩
+    let keys := arr.usedKeys
+    let sortedKeys := (keys.zip (keys.drop 1)).all (fun p => p.1 < p.2)
+    let st ← get
+    let mut checks : List (String × Bool × String) :=
+      [ ("sentinels", s0 == "0" && s1 == "0", s!"{s0} {s1}"),
+        ("array-size", arr.rs == nat! rsS, s!"{arr.rs} vs {rsS}"),
+        ("array-sorted", sortedKeys, toString keys) ]
+    if st.kind == "tree" then
+      checks := checks ++ [("array-keys", keys == st.tree.keys, s!"array {keys} map {st.tree.keys}")]
+    modify fun s => { s with arr := arr }
+    verdict (id ++ ".A") checks
+  | _ => bad id "parse" "array line"
+
+def probeEvent (id : String) (t : List String) : M Unit := do
+  let st ← get
+  let a := st.arr
+  match t with
+  | ["near", h, k, r] =>
+    let h := nat! h; let k := nat! k; let r := nat! r
+    let p := a.bisectNear h k
+    verdict s!"{id}.near.{h}.{k}"
+      [ ("bisect_near-spec", a.judge r k, s!"hint {h} key {k} returned position {r}"),
+        ("bisect_near-model", p == r, s!"hint {h} key {k} returned position {r}, model {p}") ]
+  | ["in", f, l, k, r] =>
+    let f := nat! f; let l := nat! l; let k := nat! k; let r := nat! r
+    let p := a.bisectIn f l k
+    verdict s!"{id}.in.{f}.{l}.{k}"
+      [ ("bisect_in-spec", a.judgeIn f l r k, s!"range {f}..{l} key {k} returned position {r}"),
+        ("bisect_in-model", p == r, s!"range {f}..{l} key {k} returned position {r}, model {p}") ]
+  | _ => bad id "parse" "probe line"
+
+/-! ### Sparse_Row / Dense_Row events -/
+
+def canonRow (r : SRow) : SRow := ⟨r.size, r.m.canon⟩
+def rowEq (x y : SRow) : Bool := x.size == y.size && toDense x == toDense y
+
+/-- compare one state section with the model row `r`; `exact`: also the stored key set -/
+def rowSection (r : SRow) (exact : Bool) (sec : List String) : List (String × Bool × String) :=
+  match sec with
+  | "S" :: _ :: size :: ok :: tok :: kv | "XS" :: _ :: size :: ok :: tok :: kv =>
+    let real : SMap := kv.map parseKV
+    let tag := sec.headD ""
+    let rr : SRow := ⟨nat! size, real⟩
+    [ (tag ++ "-OK", ok == "1" && tok == "1" && rr.wfB, s!"Sparse_Row::OK()={ok} CO_Tree::OK()={tok} entries [{showMap real}] size {size}"),
+      (tag ++ "-size", nat! size == r.size, s!"size {size} expected {r.size}"),
+      (tag ++ "-contents", toDense rr == toDense r, s!"expected [{showMap r.m.canon}] got [{showMap real}]") ]
+    ++ (if exact && tag == "S" then [("S-stored", real.keys == r.m.keys, s!"stored keys {real.keys} expected {r.m.keys}")] else [])
+  | "D" :: _ :: len :: ok :: vs | "XD" :: _ :: len :: ok :: vs =>
+    let tag := sec.headD ""
+    let real := vs.map int!
+    [ (tag ++ "-OK", ok == "1" && real.length == nat! len, s!"Dense_Row::OK()={ok}"),
+      (tag ++ "-contents", real == toDense r, s!"expected [{showList (toDense r)}] got [{showList real}]") ]
+  | _ => []
+
+def rowEvent (id : String) (op : List String) (ret : List String) (secs : List (List String)) : M Unit := do
+  let st ← get
+  let a (i : Nat) : String := op.getD i ""
+  let slotA := nat! (a 1)
+  let rows := st.rows
+  let r := rows.getD slotA default
+  let rb := rows.getD (nat! (a 2)) default
+  let upd (x : SRow) := rows.setIfInBounds slotA x
+  let apply (f : RowOp) := upd (f.sparse r)
+  let retS := " ".intercalate ret
+  -- (new rows, expected return, stored set exactly predictable?)
+  let (rows', expRet, exact) : Array SRow × Option String × Bool := match a 0 with
+    | "new" => (upd ⟨nat! (a 2), []⟩, none, true)
+    | "set" => (apply (.set (nat! (a 2)) (int! (a 3))), some s!"{a 2} {a 2}", true)
+    | "seth" => (apply (.set (nat! (a 3)) (int! (a 4))), some s!"{a 3} {a 3}", true)
+    | "ins0" => (apply (.touch (nat! (a 2))), some s!"{a 2} {a 2}", true)
+    | "ins0h" => (apply (.touch (nat! (a 3))), some s!"{a 3} {a 3}", true)
+    | "idx" => let v := r.m.get (nat! (a 2)); (apply (.touch (nat! (a 2))), some s!"{v} {v}", true)
+    | "get" => let v := r.m.get (nat! (a 2)); (rows, some s!"{v} {v} {v}", true)
+    | "find" => let k := nat! (a 2); let e := if r.m.stored k then toString k else "end"; (rows, some s!"{e} {e}", true)
+    | "findh" => let k := nat! (a 3); let e := if r.m.stored k then toString k else "end"; (rows, some s!"{e} {e}", true)
+    | "lb" => let e := keyStr (r.m.lowerBound (nat! (a 2))); (rows, some s!"{e} {e}", true)
+    | "lbh" => let e := keyStr (r.m.lowerBound (nat! (a 3))); (rows, some s!"{e} {e}", true)
+    | "reset" => (apply (.reset (nat! (a 2))), none, true)
+    | "resetit" => let k := nat! (a 2); (apply (.reset k), some (keyStr ((r.m.erase k).lowerBound (k + 1))), true)
+    | "resetr" => let lo := nat! (a 2); let hi := nat! (a 3)
+                  (apply (.resetRange lo hi), some (keyStr ((r.m.resetRange lo hi).lowerBound lo)), true)
+    | "resetafter" => (apply (.resetFrom (nat! (a 2))), none, true)
+    | "swapc" => (apply (.swap (nat! (a 2)) (nat! (a 3))), none, true)
+    | "swapit" => (apply (.swap (nat! (a 2)) (nat! (a 3))), none, true)
+    | "shift" => (apply (.shiftUp (nat! (a 2)) (nat! (a 3))), none, true)
+    | "del" => (apply (.deleteShift (nat! (a 2))), none, true)
+    | "resize" => (apply (.resize (nat! (a 2))), none, true)
+    | "clear" => (upd ⟨r.size, []⟩, none, true)
+    | "norm" => (apply .normalize, none, true)
+    | "lc" => (apply (.linearCombine rb (int! (a 3)) (int! (a 4)) 0 r.size), none, false)
+    | "lcr" => (apply (.linearCombine rb (int! (a 3)) (int! (a 4)) (nat! (a 5)) (nat! (a 6))), none, false)
+    | "swaprows" => ((rows.setIfInBounds slotA rb).setIfInBounds (nat! (a 2)) r, none, true)
+    | "swapmix" => ((rows.setIfInBounds slotA (canonRow rb)).setIfInBounds (nat! (a 2)) (canonRow r), none, true)
+    | "copy" => (upd rb, none, true)
+    | "conv" => (upd (canonRow rb), none, true)
+    | "convsz" => (upd ((RowOp.resize (nat! (a 3))).sparse rb), none, true)
+    | "asgsd" => (upd (canonRow rb), none, true)
+    | "asgds" => (upd rb, none, true)
+    | "asgds_raw" => (upd rb, none, true)
+    | "eq" =>
+      let e := if rowEq r rb then "1" else "0"; let ne := if rowEq r rb then "0" else "1"
+      (rows, some s!"{e} {e} {e} {e} {ne} {ne}", true)
+    | _ => (rows, none, true)
+  let mut checks : List (String × Bool × String) :=
+    [("return", match expRet with | none => true | some e => e == retS, s!"expected {expRet.getD "-"} got {retS}")]
+  let mut rowsFinal := rows'
+  for sec in secs do
+    match sec with
+    | tag :: slot :: _ =>
+      let k := nat! slot
+      let model := rows'.getD k default
+      checks := checks ++ rowSection model exact sec
+      -- bulk operations: which zeroes stay stored is not part of the contract; follow the library
+      if tag == "S" && !exact then
+        match sec with
+        | _ :: _ :: size :: _ :: _ :: kv =>
+          let real : SMap := kv.map parseKV
+          let rr : SRow := ⟨nat! size, real⟩
+          let sup := model.m.canon.keys.all (fun key => real.keys.contains key)
+          let within := real.keys.all (fun key => r.m.keys.contains key || rb.m.keys.contains key)
+          checks := checks ++ [("S-stored", sup && within, s!"stored keys {real.keys}")]
+          if rr.wfB && toDense rr == toDense model then rowsFinal := rowsFinal.setIfInBounds k rr
+        | _ => pure ()
+    | _ => pure ()
+  verdict id checks
+  modify fun s => { s with rows := rowsFinal }
+
+/-! ### Linear_Expression events: the dense list (index 0 = inhomogeneous term) is the specification -/
+
+def growTo (x : List Int) (n : Nat) : List Int := if x.length < n then Dense.resize x n else x
+
+def lin (x y : List Int) (c1 c2 : Int) (s e : Nat) : List Int := Dense.linearCombine x y c1 c2 s e
+
+def signNormalize (x : List Int) : List Int :=
+  match (x.drop 1).find? (· ≠ 0) with
+  | some v => if v < 0 then x.map (fun a => -a) else x
+  | none => x
+
+def removeDims (x : List Int) (vars : List Nat) : List Int :=
+  ((List.range x.length).zip x).filterMap (fun p => if p.1 ≥ 1 ∧ vars.contains (p.1 - 1) then none else some p.2)
+
+def permuteCycle (x : List Int) (c : List Nat) : List Int :=
+  match c with
+  | [] => x
+  | [_] => x
+  | [a, b] => Dense.swap x a b
+  | c0 :: _ =>
+    let tmp := x.getD (c.getLast?.getD 0) 0
+    Dense.set (Dense.permute x c) c0 tmp
+
+def lastNonzero (x : List Int) (lo hi dflt : Nat) : Nat :=
+  ((List.range hi).filter (fun i => lo ≤ i ∧ x.getD i 0 ≠ 0)).getLast?.getD dflt
+def firstNonzero (x : List Int) (lo hi : Nat) : Nat :=
+  ((List.range hi).filter (fun i => lo ≤ i ∧ x.getD i 0 ≠ 0)).head?.getD hi
+
+def b01 (b : Bool) : String := if b then "1" else "0"
+
+def exprSection (x : List Int) (sec : List String) : List (String × Bool × String) :=
+  match sec with
+  | "ED" :: _ :: dim :: ok :: _ :: vs | "ES" :: _ :: dim :: ok :: _ :: vs =>
+    let tag := sec.headD ""
+    let real := vs.map int!
+    [ (tag ++ "-OK", ok == "1" && nat! dim + 1 == real.length, s!"OK()={ok}"),
+      (tag ++ "-contents", real == x, s!"expected [{showList x}] got [{showList real}]") ]
+  | "ID" :: _ :: kv | "IS" :: _ :: kv =>
+    let tag := sec.headD ""
+    let exp := ((List.range x.length).zip x).filterMap
+      (fun p => if p.1 ≥ 1 ∧ p.2 ≠ 0 then some s!"{p.1 - 1}:{p.2}" else none)
+    [ (tag ++ "-iteration", kv == exp, s!"expected [{" ".intercalate exp}] got [{" ".intercalate kv}]") ]
+  | "Q" :: _ :: fl =>
+    [ ("cross-equal", fl == ["1", "1", "0", "0"], s!"is_equal_to(d,s) is_equal_to(s,d) compare(d,s) compare(s,d) = {" ".intercalate fl}") ]
+  | _ => []
+
+def exprEvent (id : String) (op : List String) (ret : List String) (secs : List (List String)) : M Unit := do
+  let st ← get
+  let a (i : Nat) : String := op.getD i ""
+  let slotA := nat! (a 1)
+  let es := st.exprs
+  let x := es.getD slotA [0]
+  let dim := x.length - 1
+  let upd (v : List Int) := es.setIfInBounds slotA v
+  let yOf (i : Nat) := es.getD (nat! (a i)) [0]
+  let comb (y : List Int) (c1 c2 : Int) := lin (growTo x y.length) y c1 c2 0 y.length
+  let retS := " ".intercalate ret
+  let (es', expRet) : Array (List Int) × Option String := match a 0 with
+    | "new" => (upd (List.replicate (nat! (a 2) + 1) 0), none)
+    | "setc" => (upd (Dense.set x (nat! (a 2) + 1) (int! (a 3))), none)
+    | "seti" => (upd (Dense.set x 0 (int! (a 2))), none)
+    | "setdim" => (upd (Dense.resize x (nat! (a 2) + 1)), none)
+    | "add" => (upd (comb (yOf 2) 1 1), none)
+    | "sub" => (upd (comb (yOf 2) 1 (-1)), none)
+    | "mul" => (upd (x.map (int! (a 2) * ·)), none)
+    | "div" => (upd (x.map (fun v => Int.tdiv v (int! (a 2)))), none)
+    | "neg" => (upd (x.map (fun v => -v)), none)
+    | "addv" => let v := nat! (a 2); (upd (Dense.addAt (growTo x (v + 2)) (v + 1) 1), none)
+    | "subv" => let v := nat! (a 2); (upd (Dense.addAt (growTo x (v + 2)) (v + 1) (-1)), none)
+    | "addn" => (upd (Dense.addAt x 0 (int! (a 2))), none)
+    | "subn" => (upd (Dense.addAt x 0 (-(int! (a 2)))), none)
+    | "addmulv" => let v := nat! (a 3); (upd (Dense.addAt (growTo x (v + 2)) (v + 1) (int! (a 2))), none)
+    | "submulv" => let v := nat! (a 3); (upd (Dense.addAt (growTo x (v + 2)) (v + 1) (-(int! (a 2)))), none)
+    | "addmul" => let f := int! (a 2); (upd (if f = 0 then x else comb (yOf 3) 1 f), none)
+    | "submul" => let f := int! (a 2); (upd (if f = 0 then x else comb (yOf 3) 1 (-f)), none)
+    | "lc3" => (upd (comb (yOf 2) (int! (a 3)) (int! (a 4))), none)
+    | "lclax" => (upd (comb (yOf 2) (int! (a 3)) (int! (a 4))), none)
+    | "lcv" =>
+      let y := yOf 2; let i := nat! (a 3) + 1
+      let xi := x.getD i 0; let yi := y.getD i 0
+      let g : Int := (Int.gcd xi yi : Nat)
+      (upd (if g = 0 then x else lin x y (yi / g) (-(xi / g)) 0 y.length), none)
+    | "lcr" => (upd (lin x (yOf 2) (int! (a 3)) (int! (a 4)) (nat! (a 5)) (nat! (a 6))), none)
+    | "lclaxr" => (upd (lin x (yOf 2) (int! (a 3)) (int! (a 4)) (nat! (a 5)) (nat! (a 6))), none)
+    | "swapd" => (upd (Dense.swap x (nat! (a 2) + 1) (nat! (a 3) + 1)), none)
+    | "rmd" => (upd (removeDims x ((op.drop 2).map nat!)), none)
+    | "shiftd" => (upd (Dense.shiftUp x (nat! (a 2) + 1) (nat! (a 3))), none)
+    | "perm" => (upd (permuteCycle x ((op.drop 2).map (fun t => nat! t + 1))), none)
+    | "norm" => (upd (Dense.normalize x), none)
+    | "signnorm" => (upd (signNormalize x), none)
+    | "mulr" => (upd (Dense.mapIn (int! (a 2) * ·) (nat! (a 3)) (nat! (a 4)) x), none)
+    | "negr" => (upd (Dense.mapIn (fun v => -v) (nat! (a 2)) (nat! (a 3)) x), none)
+    | "exdivg" =>
+      let s := nat! (a 2); let e := nat! (a 3)
+      let g : Int := (Dense.gcdBwd (Dense.slice x s e) : Nat)
+      (upd (if g = 0 then x else Dense.mapIn (· / g) s e x), some s!"{g} {g}")
+    | "copyrep" => (upd (yOf 2), none)
+    | "ctor3" => (upd (Dense.resize (yOf 2) (nat! (a 3) + 1)), none)
+    | "q" =>
+      let s := nat! (a 2); let e := nat! (a 3)
+      let sl := Dense.slice x s e
+      let one := " ".intercalate [b01 (x.all (· == 0)), b01 ((x.drop 1).all (· == 0)), toString (Dense.gcdBwd sl),
+        toString (lastNonzero x 0 x.length 0), toString (lastNonzero x s e e), toString (firstNonzero x s e),
+        toString (sl.filter (· == 0)).length, b01 (sl.all (· == 0))]
+      (es, some s!"{one} ; {one}")
+    | "q2" =>
+      let y := yOf 2; let s := nat! (a 3); let e := nat! (a 4); let c1 := int! (a 5); let c2 := int! (a 6)
+      let common := (List.range e).any (fun i => s ≤ i ∧ x.getD i 0 ≠ 0 ∧ y.getD i 0 ≠ 0)
+      let one := " ".intercalate [toString (Dense.compare x y), b01 (x == y), toString (Dense.dot x y s e),
+        b01 (Dense.eqIn x y s e), b01 (Dense.eqScaledIn x y c1 c2 s e),
+        (if s ≥ 1 ∧ e ≥ 1 then b01 common else "-"),
+        (if dim + 1 ≤ y.length then toString (Dense.dot x y 0 x.length) else "-")]
+      (es, some s!"{one} ; {one} ; {one} ; {one}")
+    | _ => (es, none)
+  let mut checks : List (String × Bool × String) :=
+    [("return", match expRet with | none => true | some e => e == retS, s!"expected {expRet.getD "-"} got {retS}")]
+  if a 0 == "mk" then
+    -- Constraint / Generator / Congruence (+ systems): the dense and the sparse object must print alike
+    let parts := retS.splitOn " ; "
+    checks := checks ++ [("dense-vs-sparse", parts.length == 2 && parts.getD 0 "" == parts.getD 1 "x",
+      s!"dense [{parts.getD 0 ""}] sparse [{parts.getD 1 ""}]")]
+    let okFlags := (toks retS).filter (fun t => t.startsWith "sys" || t.startsWith "eqv" || t.startsWith "eq")
+    checks := checks ++ [("object-OK", okFlags.all (fun t => t.endsWith "1"), " ".intercalate okFlags)]
+  if secs.any (fun s => s.contains "BACKWARD-DIFFERS") then
+    checks := checks ++ [("iteration-backward", false, "forward and backward iteration disagree")]
+  for sec in secs do
+    match sec with
+    | _ :: slot :: _ => checks := checks ++ exprSection (es'.getD (nat! slot) [0]) sec
+    | _ => pure ()
+  verdict id checks
+  modify fun s => { s with exprs := es' }
+
+def handle (line : String) : M Unit := do
+  let secs := sections line.trimAscii.toString
+  match secs with
+  | [] => pure ()
+  | hd :: rest =>
+    match hd with
+    | "H" :: _ :: kind :: _ =>
+      modify fun s => { ({} : St) with kind := kind, nOk := s.nOk, nBad := s.nBad }
+    | "E" :: _ => pure ()
+    | "end" :: _ => pure ()
+    | "P" :: id :: op =>
+      modify fun s => { s with pending := id ++ " " ++ " ".intercalate op }
+    | "crash" :: sig =>
+      let st ← get
+      -- the operation that was running is the last one announced by a `P` line
+      bad ((st.pending.splitOn " ").headD st.lastId) "crash" (" ".intercalate sig ++ " during: " ++ st.pending)
+    | "T" :: id :: op =>
+      modify fun s => { s with lastId := id }
+      treeEvent id op (rest.getD 0 []) (rest.getD 1 [])
+    | "A" :: id :: t => arrayEvent id t
+    | "B" :: id :: t => probeEvent id t
+    | "R" :: id :: op =>
+      modify fun s => { s with lastId := id }
+      rowEvent id op (rest.getD 0 []) (rest.drop 1)
+    | "X" :: id :: op =>
+      modify fun s => { s with lastId := id }
+      -- the return section may itself contain " ; " separated groups, keep it as one token list
+      exprEvent id op (rest.getD 0 []) (rest.drop 1)
+    | _ => pure ()
+
+partial def loop (h : IO.FS.Stream) : M Unit := do
+  let line ← h.getLine
+  if line.isEmpty then return
+  handle line
+  loop h
+
+end C16Driver
+
 def main (_args : List String) : IO UInt32 := do
-  IO.println "stub"
+  let stdin ← IO.getStdin
+  let (_, st) ← (C16Driver.loop stdin).run {}
+  IO.println s!"summary ok={st.nOk} mismatch={st.nBad}"
   return 0
